@@ -9,6 +9,7 @@ import (
 	"strconv"
 	"strings"
 	"sync"
+	"syscall"
 	"time"
 
 	"github.com/flant/kube-client/fake"
@@ -127,6 +128,8 @@ case "$mode" in
   exit) exit 1 ;;
   metrics) echo '{"name": 5, bad' > "$METRICS_PATH"; exit 0 ;;
   patch) echo 'this is: [not, a valid' > "$KUBERNETES_PATCH_PATH"; exit 0 ;;
+  metricsop) echo '{"name":"verif_m","action":"bogus","value":1}' > "$METRICS_PATH"; exit 0 ;;
+  patchop) printf 'operation: MergePatch\nkind: ConfigMap\nnamespace: default\nname: does-not-exist\nmergePatch:\n  data:\n    a: b\n' > "$KUBERNETES_PATCH_PATH"; exit 0 ;;
 esac
 exit 3
 `)
@@ -175,6 +178,7 @@ type c04World struct {
 	mu      sync.Mutex
 	boCalls map[string][]c04BoCall
 	rets    map[string]chan c04Ret
+	entered map[string]time.Time // when the worker entered the handler last (per queue)
 	logSeen int
 	// per queue: the previous non-allowed failure (for the retry-timing oracle)
 	lastFail map[int]*c04BoCall
@@ -195,6 +199,9 @@ func (w *c04World) configure(q *queue.TaskQueue) {
 	ch := w.rets[qn]
 	w.mu.Unlock()
 	q.Handler = func(t task.Task) queue.TaskResult {
+		w.mu.Lock()
+		w.entered[qn] = time.Now()
+		w.mu.Unlock()
 		res := realHandler(t)
 		if t.GetType() == task_metadata.HookRun {
 			var post []c04Snap
@@ -235,9 +242,13 @@ func newC04World(c *Case, r *Run, hooks []c04Hook, boInit, boStep time.Duration,
 	}
 	_ = os.MkdirAll(filepath.Join(dir, "tmp"), 0o755)
 	w := &c04World{c: c, dir: dir, hooks: hooks, tasks: NewInterner(), binds: NewInterner(), boInit: boInit, boStep: boStep,
-		realBo: realBo, boCalls: map[string][]c04BoCall{}, rets: map[string]chan c04Ret{}, lastFail: map[int]*c04BoCall{}, running: map[int]*c04Running{}}
+		realBo: realBo, boCalls: map[string][]c04BoCall{}, rets: map[string]chan c04Ret{}, entered: map[string]time.Time{}, lastFail: map[int]*c04BoCall{}, running: map[int]*c04Running{}}
 	for _, h := range hooks {
-		if err := os.WriteFile(filepath.Join(dir, "hooks", h.Name+".sh"), []byte(h.script(dir)), 0o755); err != nil {
+		// a child forked by another goroutine meanwhile would inherit the write fd (ETXTBSY on exec)
+		syscall.ForkLock.RLock()
+		err := os.WriteFile(filepath.Join(dir, "hooks", h.Name+".sh"), []byte(h.script(dir)), 0o755)
+		syscall.ForkLock.RUnlock()
+		if err != nil {
 			return nil, err
 		}
 	}
@@ -499,7 +510,11 @@ func (w *c04World) begin(qn int) string {
 	w.running[qn] = &c04Running{head: head, hook: h, start: st}
 	gap := int64(0)
 	if lf := w.lastFail[qn]; lf != nil {
-		gap = st.ts - lf.at.UnixNano()
+		// from the back-off call after the failed attempt to the worker entering the handler again
+		w.mu.Lock()
+		entered := w.entered[c04QueueName(qn)]
+		w.mu.Unlock()
+		gap = entered.Sub(lf.at).Nanoseconds()
 		if gap < 0 {
 			gap = 0
 		}
@@ -539,7 +554,7 @@ func (w *c04World) end(qn int, mode string) string {
 	if ret.status == queue.Fail {
 		status = "fail"
 		// the worker calls ExponentialBackoffFn and IncrementFailureCount right after the handler
-		for i := 0; i < 5000; i++ {
+		for i := 0; i < 400; i++ {
 			w.mu.Lock()
 			if len(w.boCalls[qname]) > nbo {
 				bo = w.boCalls[qname][nbo]
@@ -746,7 +761,9 @@ func c04GenHooks(rng *Rng, nh int) []c04Hook {
 	return hooks
 }
 
-func c04FailMode(rng *Rng) string { return PickOne(rng, []string{"exit", "exit", "metrics", "patch"}) }
+func c04FailMode(rng *Rng) string {
+	return PickOne(rng, []string{"exit", "exit", "metrics", "patch", "metricsop", "patchop"})
+}
 
 func c04Random(c *Case, rng *Rng, r *Run) {
 	hooks := c04GenHooks(rng, rng.Range(1, 3))
@@ -832,7 +849,7 @@ func c04Witness(c *Case, r *Run, headAF, followerAF bool, queueN int, fails int)
 }
 
 func runC04(r *Run) {
-	r.Rule = "part 1: the real CalculateDelay (8 initial delays x retry counts 0..40, repeated) and the queue's default ExponentialBackoffFn: every observed delay must be a member of the model's set {calcDelay k r | r < 1000}; oracle: initial <= delay <= 32s. part 2: the real operator (NewShellOperator + real metric storages + kube-client/fake + real hook manager, event handler and queues) with 1..3 generated bash hooks (onStartup, 1..3 schedule bindings each with allowFailure/group, queue main or q1) whose every execution blocks at a gate until the harness lets it finish as scripted (ok / exit 1 / unparsable metrics file / unparsable patch file); schedule events are fired through ScheduleManager.Ch() while a run is blocked, so queue layouts of 1..6 tasks (+ up to 4 arriving during runs) with mixed allowFailure values are in the queue when the head is handled; back-off shortened through ExponentialBackoffFn (15..30 ms + 5 ms*failureCount, or the real CalculateDelay for the first failure). Observation per run: the contexts in the hook's context file, the queue afterwards, failure counter, back-off returned, wall-clock gap to the retry. Non-trivial: >= 2 tasks in the layouts. distinct = distinct op-line sequences."
+	r.Rule = "part 1: the real CalculateDelay (8 initial delays x retry counts 0..40, repeated) and the queue's default ExponentialBackoffFn: every observed delay must be a member of the model's set {calcDelay k r | r < 1000}; oracle: initial <= delay <= 32s. part 2: the real operator (NewShellOperator + real metric storages + kube-client/fake + real hook manager, event handler and queues) with 1..3 generated bash hooks (onStartup, 1..3 schedule bindings each with allowFailure/group, queue main or q1) whose every execution blocks at a gate until the harness lets it finish as scripted (ok / exit 1 / unparsable metrics file / unparsable patch file / metric operation that fails validation / patch operation that cannot be applied); schedule events are fired through ScheduleManager.Ch() while a run is blocked, so queue layouts of 1..6 tasks (+ up to 4 arriving during runs) with mixed allowFailure values are in the queue when the head is handled; back-off shortened through ExponentialBackoffFn (15..30 ms + 5 ms*failureCount, or the real CalculateDelay for the first failure). Observation per run: the contexts in the hook's context file, the queue afterwards, failure counter, back-off returned, wall-clock gap to the retry. Non-trivial: >= 2 tasks in the layouts. distinct = distinct op-line sequences."
 	r.CaseTimeout = 120 * time.Second
 	r.One(0, func(c *Case, _ *Rng) { c04Delays(c, r) })
 	r.One(1, func(c *Case, _ *Rng) {
